@@ -69,6 +69,7 @@ func c14QuicScenario(c *choice.Ctx, rep *report.R, depth int) {
 	envFaulted := false           // a dial fault or a stalled stream was scripted in this execution
 	killedByEnv := map[int]bool{} // connections the environment killed
 	stragglers := map[skey]bool{} // streams of killed connections that have not been told yet
+	reflected := map[string]bool{} // questions whose query the server sent back instead of a response
 	otherFault := false           // a fault other than the death of a whole connection happened in this execution
 	getConns := func() []*env.FakeQuicConn {
 		cmu.Lock()
@@ -113,6 +114,9 @@ func c14QuicScenario(c *choice.Ctx, rep *report.R, depth int) {
 				if !excused {
 					fail("collateral-failure", fmt.Sprintf("the only faults were deaths of whole connections, none of them a connection that was new to exchange %d and carried its query; new connections are healthy, yet the exchange failed: %s", cl.idx, cl))
 				}
+			}
+			if cl.resp != nil && reflected[cl.name.String()] && len(cl.resp.An) == 0 && !cl.resp.Has(refdns.BitQR) {
+				continue // its own query, reflected by the server and handed through
 			}
 			if cl.resp != nil {
 				_, s, ok := env.AnswerKey(cl.resp)
@@ -277,6 +281,14 @@ func c14QuicScenario(c *choice.Ctx, rep *report.R, depth int) {
 					menu = append(menu, event{name: fmt.Sprintf("garbage(c%d.s%d)", ci, si), fault: true, do: func() {
 						answered[k] = true
 						st.E.Inject(refdns.Frame([]byte{1, 2, 3}))
+						st.E.Peer().CloseWrite()
+					}})
+					// a decodable message that is not a response: the query itself comes back (QR clear). Whether the transport hands it
+					// to the caller or reports an error is its business; it must do one of the two
+					menu = append(menu, event{name: fmt.Sprintf("query-reflected(c%d.s%d)", ci, si), fault: true, do: func() {
+						answered[k] = true
+						reflected[q.Q[0].Name.String()] = true
+						st.E.Inject(refdns.Frame(q.Encode(false)))
 						st.E.Peer().CloseWrite()
 					}})
 					menu = append(menu, event{name: fmt.Sprintf("stream-reset(c%d.s%d)", ci, si), fault: true, do: func() { answered[k] = true; st.E.Abort() }})
